@@ -9,7 +9,9 @@ package main
 import (
 	"crypto/sha256"
 	"crypto/sha512"
+	"encoding/json"
 	"fmt"
+	"os"
 
 	"verifharness/internal/kc"
 )
@@ -51,7 +53,36 @@ func c08Sha(c *kc.Ctx) {
 	b.run(nil)
 }
 
+// c08Replay re-establishes the run a replay file came from: the whole check is a deterministic function
+// of (seed, tier), so re-running it with the recorded values reproduces the recorded failure.
+func c08Replay(c *kc.Ctx) {
+	b, err := os.ReadFile(c.ReplayFile)
+	if err != nil {
+		fmt.Fprintf(os.Stderr, "kcheck: cannot read replay %s: %v\n", c.ReplayFile, err)
+		os.Exit(2)
+	}
+	var r struct {
+		Seed uint64 `json:"seed"`
+		Tier string `json:"tier"`
+		Key  string `json:"key"`
+	}
+	if json.Unmarshal(b, &r) != nil || r.Tier == "" {
+		fmt.Fprintf(os.Stderr, "kcheck: %s is not a C08 replay\n", c.ReplayFile)
+		os.Exit(2)
+	}
+	h := sha256.Sum256([]byte(c.Prop))
+	mix := uint64(0)
+	for i := 0; i < 8; i++ {
+		mix = mix<<8 | uint64(h[i])
+	}
+	c.Seed, c.Tier, c.Rng = r.Seed, r.Tier, kc.NewRng(r.Seed^mix)
+	fmt.Printf("replaying seed=%d tier=%s (recorded failure key: %s)\n", r.Seed, r.Tier, r.Key)
+}
+
 func runC08(c *kc.Ctx) {
+	if c.ReplayFile != "" {
+		c08Replay(c)
+	}
 	c.SetRule("cases = (scheme, group/configuration, key, message, mutation); generated from one PRNG; non-trivial = honest signatures, " +
 		"every mutated (pub,msg,sig) triple, predicate inputs, SHA inputs with random content; distinct by (kind, input bytes / scalars)")
 	c.Assume("H_RO: Fiat–Shamir challenges are oracle values in the Schnorr and ring-signature models (SHA-512 is concrete in the EdDSA model)",
